@@ -10,7 +10,7 @@ provenance atom of the regenerated accessor table (translator/c06) produces:
   app.go New / helpers.go getStringImmutable:  `getString` copies iff `Config.Immutable`.
 
 Part 2 (accessor semantics): what each accessor of ctx.go returns for the structured requests the
-harness sends (route: literal `u`, `:name`, literal `-`, then `*`; default configuration apart from `Immutable`), transcribed from
+harness sends (route: literal `u`, `:name`, literal `-`, then `*`; configuration `Cfg`), transcribed from
 ctx.go (`Params`, `Path`, `OriginalURL`, `Protocol`, `Query`, `Queries`, `Get`, `Cookies`, `Host`,
 `Hostname`, `Scheme`, `BaseURL`, `IPs`, `Subdomains`, `Body`, `FormValue`, …) and bind.go/binder
 (map targets). Accessors without a transcription return `none` and are only checked for stability.
@@ -38,6 +38,13 @@ def Val.isOwned : Val → Bool
 def Val.read (st : Store) : Val → Bytes
   | .owned bs => bs
   | .view buf off len => ((st buf).drop off).take len
+
+/-- A value derived by slicing (Go `s[off:off+len]`, `strings.Split`, `utils.Trim`, the comma cut of
+    `Host`, the pieces of `IPs` / `Subdomains` / `Range`): a sub-slice of an owned value shares the owned
+    bytes, a sub-slice of a view is a view into the same buffer. -/
+def Val.sub (off len : Nat) : Val → Val
+  | .owned bs => .owned ((bs.drop off).take len)
+  | .view buf o l => .view buf (o + off) (min len (l - off))
 
 /-- One effect of serving a later request: a buffer gets arbitrary new contents. -/
 structure Overwrite where
@@ -92,6 +99,16 @@ def Row.okImmutable (r : Row) : Bool :=
 
 /-! ## Part 2 — accessor semantics on the harness' structured requests -/
 
+/-- Configuration of the app under test (harness/cmd/c06 `config`). -/
+structure Cfg where
+  imm : Bool
+  cs : Bool := false      -- CaseSensitive
+  split : Bool := false   -- EnableSplittingOnParsers
+  ph : Bool := false      -- ProxyHeader = X-Forwarded-For
+  ipv : Bool := false     -- EnableIPValidation
+  tp : Bool := false      -- TrustProxy on, peer not trusted
+  deriving Repr
+
 structure Req where
   proto : Nat                       -- 0 = HTTP/1.1, 1 = HTTP/1.0
   name : Bytes
@@ -100,9 +117,12 @@ structure Req where
   headers : List (Bytes × Bytes)
   cookies : List (Bytes × Bytes)
   host : Bytes
-  bkind : Char                      -- 'n' | 'r' | 'f' | 'j'
+  bkind : Char                      -- 'n' | 'r' | 'f' | 'j' | 'm' | 'z'
   braw : Bytes
   bform : List (Bytes × Bytes)
+  bfiles : List (Bytes × Bytes) := []   -- 'm': field name ↦ file name
+  encs : List Bytes := []               -- 'z': Content-Encoding elements in header order
+  layers : List Bytes := []             -- 'z': layers[0] = wire body, layers[i+1] = layers[i] decoded by encs[i]
   deriving Repr
 
 def joinPairs (ps : List (Bytes × Bytes)) (eq sep : Bytes) : Bytes :=
@@ -113,19 +133,59 @@ def Req.path (q : Req) : Bytes := b "/u/" ++ q.name ++ b "/-/" ++ q.rest
 def Req.uri (q : Req) : Bytes :=
   if q.query.isEmpty then q.path else q.path ++ b "?" ++ joinPairs q.query (b "=") (b "&")
 
+def boundary : Bytes := b "XbOuNdArYx"
+def crlf : Bytes := [13, 10]
+
 def Req.contentType (q : Req) : Bytes :=
   match q.bkind with
   | 'r' => b "text/plain"
+  | 'z' => b "text/plain"
   | 'f' => b "application/x-www-form-urlencoded"
   | 'j' => b "application/json"
+  | 'm' => b "multipart/form-data; boundary=" ++ boundary
   | _ => []
 
+/-- the multipart body exactly as harness/cmd/c06 `request.body` assembles it -/
+def Req.multipartBody (q : Req) : Bytes :=
+  let field (p : Bytes × Bytes) : Bytes :=
+    b "--" ++ boundary ++ crlf ++ b "Content-Disposition: form-data; name=\"" ++ p.1 ++ b "\"" ++ crlf ++ crlf ++ p.2 ++ crlf
+  let file (p : Bytes × Bytes) : Bytes :=
+    b "--" ++ boundary ++ crlf ++ b "Content-Disposition: form-data; name=\"" ++ p.1 ++ b "\"; filename=\"" ++ p.2 ++ b "\"" ++ crlf ++
+      b "Content-Type: text/plain" ++ crlf ++ crlf ++ b "content of " ++ p.2 ++ crlf
+  (q.bform.map field).flatten ++ (q.bfiles.map file).flatten ++ b "--" ++ boundary ++ b "--" ++ crlf
+
+/-- the body on the wire (`Request.Body()`, ctx.go `BodyRaw`) -/
 def Req.body (q : Req) : Bytes :=
   match q.bkind with
   | 'r' => q.braw
   | 'f' => joinPairs q.bform (b "=") (b "&")
   | 'j' => b "{" ++ join (q.bform.map fun p => b "\"" ++ p.1 ++ b "\":\"" ++ p.2 ++ b "\"") (b ",") ++ b "}"
+  | 'm' => q.multipartBody
+  | 'z' => q.layers.headD []
   | _ => []
+
+def supportedEnc (e : Bytes) : Bool :=
+  e == b "gzip" || e == b "br" || e == b "brotli" || e == b "deflate" || e == b "zstd"
+
+/-- ctx.go `tryDecodeBodyInOrder` over the layers the harness supplies: the encodings are applied in
+    HEADER order; a supported one replaces `body` by the next layer, the first unsupported one ends the
+    loop returning what has been decoded so far (nothing at index 0) – except that a SINGLE unsupported
+    encoding returns the raw body. `none`: a layer is missing (outside the harness' domain). -/
+def decodeInOrder (raw : Bytes) (n : Nat) : List Bytes → List Bytes → Option Bytes → Option Bytes
+  | [], _, body => body
+  | e :: es, ls, body =>
+    if supportedEnc e then
+      match ls with
+      | l :: ls' => decodeInOrder raw n es ls' (some l)
+      | [] => none
+    else if n == 1 then some raw else some (body.getD [])
+
+/-- ctx.go `Body`: no Content-Encoding ⇒ the raw body; otherwise the decoded one. -/
+def Req.decodedBody (q : Req) : Option Bytes :=
+  if q.bkind == 'z' then
+    if q.encs.isEmpty then some q.body
+    else decodeInOrder q.body q.encs.length q.encs (q.layers.drop 1) (some [])
+  else some q.body
 
 def first? (ps : List (Bytes × Bytes)) (k : Bytes) : Option Bytes :=
   (ps.find? (·.1 == k)).map (·.2)
@@ -137,6 +197,7 @@ def Req.header (q : Req) (k : Bytes) : Bytes :=
   else if k' == b "content-type" then q.contentType
   else if k' == b "content-length" then (if q.bkind == 'n' then [] else natToDec q.body.length)
   else if k' == b "cookie" then joinPairs q.cookies (b "=") (b "; ")
+  else if k' == b "content-encoding" then (if q.bkind == 'z' then join q.encs (b ", ") else [])
   else ((q.headers.find? fun h => toLower h.1 == k').map (·.2)).getD []
 
 def upTo (s : Bytes) (c : Nat) : Bytes :=
@@ -144,13 +205,18 @@ def upTo (s : Bytes) (c : Nat) : Bytes :=
   | some i => s.take i
   | none => s
 
-/-- ctx.go `Host` (TrustProxy off ⇒ `IsProxyTrusted` is true ⇒ X-Forwarded-Host is honoured) -/
-def Req.hostV (q : Req) : Bytes :=
-  let xf := q.header (b "X-Forwarded-Host")
-  if xf ≠ [] then upTo xf 44 else q.host
+/-- ctx.go `IsProxyTrusted`: TrustProxy off ⇒ true; on with an empty TrustProxyConfig ⇒ the peer
+    10.0.0.7 is not trusted. -/
+def Cfg.trusted (c : Cfg) : Bool := !c.tp
 
-/-- ctx.go `Scheme` without TLS: last X-Forwarded-Proto wins, up to the first comma -/
-def Req.scheme (q : Req) : Bytes :=
+/-- ctx.go `Host`: X-Forwarded-Host (up to the first comma) is honoured for a trusted peer -/
+def Req.hostV (c : Cfg) (q : Req) : Bytes :=
+  let xf := q.header (b "X-Forwarded-Host")
+  if c.trusted && xf ≠ [] then upTo xf 44 else q.host
+
+/-- ctx.go `Scheme` without TLS: for a trusted peer X-Forwarded-Proto, up to the first comma -/
+def Req.scheme (c : Cfg) (q : Req) : Bytes :=
+  if !c.trusted then b "http" else
   match q.headers.find? fun h => h.1 == b "X-Forwarded-Proto" with
   | some h => upTo h.2 44
   | none => b "http"
@@ -203,47 +269,96 @@ def flatMapAll (ps : List (Bytes × Bytes)) : List Bytes :=
 
 def Req.postArgs (q : Req) : List (Bytes × Bytes) := if q.bkind == 'f' then q.bform else []
 
-/-- ctx.go `Params` on the harness route (Route.Params = ["name", "*1"], case-insensitive keys) -/
-def Req.param (q : Req) (k : Bytes) : Bytes :=
+/-- binder/mapping.go `parseParamSquareBrackets` on balanced, un-nested brackets: `[` followed by
+    something other than `]` becomes `.`, every other bracket disappears. -/
+def bracketKey : Bytes → Bytes
+  | [] => []
+  | 91 :: 93 :: rest => bracketKey rest                -- "[]"
+  | 91 :: rest => 46 :: bracketKey rest                -- "[x" ↦ ".x"
+  | 93 :: rest => bracketKey rest
+  | c :: rest => c :: bracketKey rest
+
+/-- binder/mapping.go `formatBindData` + `assignBindData` for a map target (`equalFieldType` is true
+    for every key of a map): the data the decoder receives, as (key, value) pairs in arrival order. -/
+def bindData (split brackets : Bool) (ps : List (Bytes × Bytes)) : List (Bytes × Bytes) :=
+  ps.flatMap fun p =>
+    let k := if brackets && p.1.contains 91 then bracketKey p.1 else p.1
+    if split && p.2.contains 44 then (splitOn p.2 44).map fun v => (k, v) else [(k, p.2)]
+
+/-- what `Bind().Form` sees: urlencoded post arguments, or the values of a multipart form -/
+def Req.formArgs (q : Req) : List (Bytes × Bytes) :=
+  if q.bkind == 'f' || q.bkind == 'm' then q.bform else []
+
+/-- ctx.go `Params` on the harness route (Route.Params = ["name", "*1"]) -/
+def Req.param (c : Cfg) (q : Req) (k : Bytes) : Bytes :=
   let k := if k == b "*" || k == b "+" then k ++ b "1" else k
-  if equalFold k (b "name") then q.name
+  if k == b "name" || (!c.cs && equalFold k (b "name")) then q.name
   else if k == b "*1" then q.rest
   else []
 
-/-- `fasthttp.RequestCtx.FormValue`: first non-empty of query args, post args -/
+/-- `fasthttp.RequestCtx.FormValue`: first non-empty of query args, post args, multipart values -/
 def Req.formValue (q : Req) (k : Bytes) : Bytes :=
   let a := (first? q.query k).getD []
-  if a ≠ [] then a else (first? q.postArgs k).getD []
+  if a ≠ [] then a else
+  let p := (first? q.postArgs k).getD []
+  if p ≠ [] then p else
+  if q.bkind == 'm' then (first? q.bform k).getD [] else []
+
+def Req.method (q : Req) : Bytes := if q.bkind == 'n' then b "GET" else b "POST"
+
+/-- response headers the harness' handler has set before it calls the accessors -/
+def Req.respHeader (q : Req) (k : Bytes) : Option Bytes :=
+  let k' := toLower k
+  if k' == b "x-resp" then some (b "r-" ++ q.name)
+  else if k' == b "x-echo" then some (q.header (b "X-Custom-A"))
+  else if k' == b "content-type" then some (b "text/plain; charset=utf-8")   -- fasthttp's default
+  else none
 
 /-- Semantics of accessor `meth` (with key `key` when it takes one): the flattened text it returns.
-    `none` = no transcription (checked for stability only). -/
-def sem (q : Req) (meth : String) (key : Bytes) : Option (List Bytes) :=
+    `none` = no transcription (checked for stability only). The `Req.` / `Res.` facades (req.go,
+    res.go) delegate to the context's methods. -/
+def sem (c : Cfg) (q : Req) (meth : String) (key : Bytes) : Option (List Bytes) :=
+  let meth := if meth.startsWith "Req." then (meth.drop 4).toString else meth
   match meth with
-  | "Params" | "Params[string]" | "Params[[]byte]" | "Req.Params" => some [q.param key]
+  | "Params" | "Params[string]" | "Params[[]byte]" => some [q.param c key]
   | "Path" => some [q.path]
   | "OriginalURL" => some [q.uri]
-  | "Protocol" | "Req.Protocol" => some [if q.proto == 1 then b "HTTP/1.0" else b "HTTP/1.1"]
-  | "Method" => some [if q.bkind == 'n' then b "GET" else b "POST"]
+  | "Protocol" => some [if q.proto == 1 then b "HTTP/1.0" else b "HTTP/1.1"]
+  | "Method" => some [q.method]
   | "Query" | "Query[string]" | "Query[[]byte]" => some [(first? q.query key).getD []]
   | "Queries" => some (flatMapLast q.query)
   | "Get" | "GetReqHeader[string]" | "GetReqHeader[[]byte]" => some [q.header key]
   | "Cookies" => some [(first? q.cookies key).getD []]
-  | "Host" | "Req.Host" => some [q.hostV]
-  | "Hostname" => some [hostname q.hostV]
-  | "Scheme" => some [q.scheme]
-  | "BaseURL" => some [q.scheme ++ b "://" ++ q.hostV]
-  | "IP" => some [b "10.0.0.7"]
+  | "Host" => some [q.hostV c]
+  | "Hostname" => some [hostname (q.hostV c)]
+  | "Scheme" => some [q.scheme c]
+  | "BaseURL" => some [q.scheme c ++ b "://" ++ q.hostV c]
+  | "IP" =>
+    if c.trusted && c.ph then (if c.ipv then none else some [q.header (b "X-Forwarded-For")])
+    else some [b "10.0.0.7"]
   | "Port" => some [b "4242"]
-  | "IPs" => some (ipsOf (q.header (b "X-Forwarded-For")))
-  | "Subdomains" => some (subdomains q.hostV)
-  | "Body" | "BodyRaw" | "Req.Body" => some [q.body]
+  | "IPs" => if c.ipv then none else some (ipsOf (q.header (b "X-Forwarded-For")))
+  | "Subdomains" => some (subdomains (q.hostV c))
+  -- a multipart body is pre-parsed by fasthttp (`Request.Read` / the server loop, unless
+  -- DisablePreParseMultipartForm) and `Request.Body()` re-marshals the form on every call, parts in Go
+  -- map order: not the wire bytes, not even the same bytes twice. Stability only.
+  | "BodyRaw" => if q.bkind == 'm' then none else some [q.body]
+  | "Body" => if q.bkind == 'm' then none else q.decodedBody.map fun d => [d]
   | "FormValue" => some [q.formValue key]
-  | "Route.Path" => some [b "/u/:name/-/*"]
-  | "Bind.Query:map" => some (flatMapLast q.query ++ [[]])
-  | "Bind.Query:mapslice" => some (flatMapAll q.query ++ [[]])
-  | "Bind.Cookie:map" => some (flatMapLast q.cookies ++ [[]])
-  | "Bind.Form:map" => some (flatMapLast q.postArgs ++ [[]])
+  | "GetRespHeader" | "Res.Get" => (q.respHeader key).map fun v => [v]
+  | "Route" => some [q.method, [], b "/u/:name/-/*", b "name", b "*1"]
+  | "Bind.Query:map" => some (flatMapLast (bindData c.split true q.query) ++ [[]])
+  | "Bind.Query:mapslice" => some (flatMapAll (bindData c.split true q.query) ++ [[]])
+  | "Bind.Cookie:map" => some (flatMapLast (bindData c.split false q.cookies) ++ [[]])
+  | "Bind.Cookie:mapslice" => some (flatMapAll (bindData c.split false q.cookies) ++ [[]])
+  | "Bind.Form:map" => some (flatMapLast (bindData c.split true q.formArgs) ++ [[]])
+  | "Bind.Form:mapslice" => some (flatMapAll (bindData c.split true q.formArgs) ++ [[]])
+  | "Bind.Body:map" =>
+    if q.bkind == 'f' || q.bkind == 'm' then some (flatMapLast (bindData c.split true q.formArgs) ++ [[]]) else none
+  | "Bind.Body:mapslice" =>
+    if q.bkind == 'f' || q.bkind == 'm' then some (flatMapAll (bindData c.split true q.formArgs) ++ [[]]) else none
   | "Bind.URI:map" => some ([b "*1", q.rest, b "name", q.name, []])
+  | "Bind.URI:mapslice" => some ([b "*1", q.rest, b "name", q.name, []])
   | _ => none
 
 end C06
